@@ -5,7 +5,7 @@ Require Extraction.
 Require Import ExtrOcamlBasic.
 From Coq Require Import ZArith List.
 From Cedar Require Import Base.Int64 Lang.Value Lang.Expr Impl.Authorize Impl.Like Impl.Eval
-  Impl.Decimal Impl.Duration Impl.Datetime Impl.IPAddr Impl.Fold Impl.PolicySet Impl.HashSet Impl.Partial Generated.Tables.
+  Impl.Decimal Impl.Duration Impl.Datetime Impl.IPAddr Impl.Fold Impl.PolicySet Impl.HashSet Impl.Partial Impl.Batch Generated.Tables.
 Extraction Language OCaml.
 Extraction "model.ml"
   Authorize.authorize
@@ -18,4 +18,5 @@ Extraction "model.ml"
   IPAddr.parse_ip
   Fold.fold Fold.fold_policy Tables.fold_table
   PolicySet.run
-  Partial.partial_policy Partial.partial.
+  Partial.partial_policy Partial.partial
+  Batch.batch_authorize.
